@@ -637,16 +637,16 @@ class Engine:
             else:
                 di = i - (npos - ndef)
                 if di >= 0:
-                    env.vars[p] = self.eval_default(f, defaults[di])
+                    env.vars[p] = f.defaults[0][di] if f.defaults is not None else self.eval_default(f, defaults[di])
                 else:
                     raise PyRaise("TypeError", (f"missing argument {p} for {f.name}",))
         if a.vararg is not None:
             env.vars[a.vararg.arg] = tuple(args[npos:])
-        for p, d in zip(a.kwonlyargs, a.kw_defaults):
+        for kpos, (p, d) in enumerate(zip(a.kwonlyargs, a.kw_defaults)):
             if p.arg in kwargs:
                 env.vars[p.arg] = kwargs.pop(p.arg)
             elif d is not None:
-                env.vars[p.arg] = self.eval_default(f, d)
+                env.vars[p.arg] = f.defaults[1][kpos] if f.defaults is not None else self.eval_default(f, d)
             else:
                 raise PyRaise("TypeError", (f"missing keyword argument {p.arg}",))
         if a.kwarg is not None:
@@ -774,7 +774,14 @@ class Frame:
         raise _Continue()
 
     def s_FunctionDef(self, st):
-        self.env.vars[st.name] = Closure(st, self.module, self.env, defcls=None)
+        c = Closure(st, self.module, self.env, defcls=None)
+        self.bind_defaults_now(c, st.args)
+        self.env.vars[st.name] = c
+
+    def bind_defaults_now(self, c, a):
+        """Python evaluates default values when the def / lambda is executed (not when the function is called): `lambda x, i=i: ...`
+        inside a loop captures the value of i of that iteration."""
+        c.defaults = ([self.eval(d) for d in a.defaults], [self.eval(d) if d is not None else None for d in a.kw_defaults])
 
     def s_If(self, st):
         c = self.truth(self.eval(st.test))
@@ -1214,7 +1221,9 @@ class Frame:
         return d
 
     def e_Lambda(self, node):
-        return Closure(node, self.module, self.env, name="<lambda>")
+        c = Closure(node, self.module, self.env, name="<lambda>")
+        self.bind_defaults_now(c, node.args)
+        return c
 
     def e_IfExp(self, node):
         from . import npmodel
@@ -1335,15 +1344,17 @@ class Frame:
     def e_ListComp(self, node):
         gens = node.generators
         if len(gens) == 1 and not gens[0].ifs and isinstance(gens[0].iter, ast.Call) and isinstance(gens[0].iter.func, ast.Name) and gens[0].iter.func.id == "range" \
-                and len(gens[0].iter.args) == 1 and not gens[0].iter.keywords:
-            # [f(i) for i in range(n)] with a symbolic n: the list of the images, evaluated lazily and memoised per index term (so that the same
-            # position denotes the same value, e.g. the same reduction); the element expression must be pure
+                and 1 <= len(gens[0].iter.args) <= 2 and not gens[0].iter.keywords:
+            # [f(i) for i in range(n)] / range(a, b) with a symbolic length: the list of the images, evaluated lazily and memoised per index term
+            # (so that the same position denotes the same value, e.g. the same reduction); the element expression must be pure
             from . import npmodel, lazyseq
-            n = npmodel.unwrap(self.eval(gens[0].iter.args[0]))
+            rargs = [npmodel.unwrap(self.eval(x)) for x in gens[0].iter.args]
+            start = 0 if len(rargs) == 1 else rargs[0]
+            n = T.sub(rargs[-1], start)
             if T.is_sym(n) and T.is_sym(T.simp(n)):
                 saved_env, fr, memo = self.env, self, {}
 
-                def item(k):
+                def item(k, start=start):
                     key = T.zi(k).get_id() if T.is_sym(k) else ("c", k)
                     if key in memo:
                         return memo[key]
@@ -1351,7 +1362,7 @@ class Frame:
                     old = fr.env
                     fr.env = env
                     try:
-                        fr.assign(gens[0].target, k)
+                        fr.assign(gens[0].target, T.add(start, k))
                         memo[key] = fr.eval(node.elt)
                         return memo[key]
                     finally:
@@ -1364,7 +1375,9 @@ class Frame:
                     self.eng.obligations = saved_obs
                 return lazyseq.SymList(T.ite(T.compare("gt", n, 0), n, 0), item, scalar=T.is_scalar(probe))
             out = []
-            for k in range(int(T.simp(n)) if T.is_sym(n) else int(n)):
+            nn = int(T.conc(T.simp(n))) if T.is_sym(n) else int(n)
+            st0 = int(T.conc(T.simp(start))) if T.is_sym(start) else int(start)
+            for k in range(st0, st0 + max(nn, 0)):
                 saved = self.env
                 self.env = Env(saved)
                 try:
